@@ -536,8 +536,11 @@ func TakeUntil[T, S any](signal Observable[S]) func(Observable[T]) Observable[T]
 					subscriberCtx,
 					OnNextWithContext(
 						func(ctx context.Context, value S) {
-							atomic.StoreUint32(&ready, 1)
+							// Complete first: raising the flag first would let a source error
+							// that arrives in between end the output in place of this completion,
+							// after the values before it had been discarded.
 							destination.CompleteWithContext(ctx)
+							atomic.StoreUint32(&ready, 1)
 						},
 					),
 				),
